@@ -39,7 +39,7 @@ func init() {
 			Runs: map[string]int{"quick": 60000, "thorough": 4000000},
 		}, {
 			Name: "clisim-c09-busy", Fn: clisim.C09Busy, ProcessLevel: true, NeedsCLI: true,
-			Runs: map[string]int{"quick": 200, "thorough": 6000},
+			Runs: map[string]int{"quick": 600, "thorough": 6000},
 		}},
 		Rule:           "one run = generated directory (1-5 files x 0-5 statements, layout varied) + swarm-selected fault kinds (statement error persistent/one-shot, revision write lost, revision write persisted-but-error, revision read error; <=3 faults, positions biased to first/last statement and to the write right after a statement) + 1-8 ExecuteN/ExecuteTo calls + clean suffix; distinct = distinct trace hash (sha256 of the normalised event log) among runs in which at least one statement was executed or a fault fired",
 		RequiredProbes: []string{"resume-after-partial", "directory-with-checkpoint", "resume-of-partial-checkpoint", "lost-write-right-after-statement", "statement-executed-twice-after-lost-write", "statement-executed-but-bookkeeping-write-failed", "statement-executed-twice-after-failed-bookkeeping"},
@@ -63,7 +63,7 @@ func init() {
 		Property: "C10",
 		Parts: []simkit.Part{{
 			Name: "clisim-c10", Fn: clisim.C10, ProcessLevel: true, NeedsCLI: true,
-			Runs: map[string]int{"quick": 1440, "thorough": 43200},
+			Runs: map[string]int{"quick": 2880, "thorough": 43200},
 		}},
 		Rule:           "one run = generated directory (1-4 files x 1-4 self-journalling statements, idempotent DDL mixed in) + tx-mode and first crash point stratified over the run index (36 cells) + tape-drawn occurrence, count argument, optional earlier clean apply, optional second crash at a drawn point, restart with the lease still held or expired; distinct = distinct trace hash among runs in which a crash really fired",
 		RequiredProbes: c10probes,
@@ -80,9 +80,9 @@ func init() {
 	add(&simkit.Check{
 		Property: "C13",
 		Parts: []simkit.Part{
-			{Name: "clisim-c13-apply", Fn: clisim.C13Apply, ProcessLevel: true, NeedsCLI: true, Runs: map[string]int{"quick": 900, "thorough": 30000}},
-			{Name: "clisim-c13-schema", Fn: clisim.C13Schema, ProcessLevel: true, NeedsCLI: true, Runs: map[string]int{"quick": 300, "thorough": 8000}},
-			{Name: "clisim-c13-dryrun", Fn: clisim.C13Dry, ProcessLevel: true, NeedsCLI: true, Runs: map[string]int{"quick": 400, "thorough": 10000}},
+			{Name: "clisim-c13-apply", Fn: clisim.C13Apply, ProcessLevel: true, NeedsCLI: true, Runs: map[string]int{"quick": 1800, "thorough": 30000}},
+			{Name: "clisim-c13-schema", Fn: clisim.C13Schema, ProcessLevel: true, NeedsCLI: true, Runs: map[string]int{"quick": 600, "thorough": 8000}},
+			{Name: "clisim-c13-dryrun", Fn: clisim.C13Dry, ProcessLevel: true, NeedsCLI: true, Runs: map[string]int{"quick": 800, "thorough": 10000}},
 		},
 		Rule:           "apply part: generated directory (1-4 files x 1-4 statements, real DDL mixed in) with at most one statement that fails at execution time at a drawn (file, statement), global --tx-mode stratified over the run index x per-file atlas:txmode directives x optional count argument x optional earlier clean apply; then fix + re-hash + re-run. schema part: initial schema applied by the CLI, rows with duplicates/NULLs/negatives inserted, desired schema = one drawn change per table of which at most one cannot succeed on the data (UNIQUE on duplicates, NOT NULL on NULLs, violated CHECK), --dry-run then default mode then --tx-mode none as reach probe. dry-run part: migrate apply --dry-run on fresh / initialised / dirty databases x count x tx-mode x --baseline / --allow-dirty. distinct = distinct trace hash among runs that executed at least one apply",
 		RequiredProbes: []string{"second-failure-after-fix", "partial-prefix-recorded", "rolled-back-after-progress", "plan-failed-after-progress", "dry-run:fresh:baseline", "dry-run:dirty:baseline", "dry-run:initialised:plain", "dry-run:dirty:allow-dirty"},
@@ -99,7 +99,7 @@ func init() {
 		Property: "C12",
 		Parts: []simkit.Part{
 			{Name: "execsim-c12", Fn: execsim.C12, Runs: map[string]int{"quick": 40000, "thorough": 2000000}},
-			{Name: "clisim-c12", Fn: clisim.C12CLI, ProcessLevel: true, NeedsCLI: true, Runs: map[string]int{"quick": 400, "thorough": 12000}},
+			{Name: "clisim-c12", Fn: clisim.C12CLI, ProcessLevel: true, NeedsCLI: true, Runs: map[string]int{"quick": 1000, "thorough": 12000}},
 		},
 		Rule:           "one run = victim file of 1-5 statements (optional complete predecessor / pending successor), partially applied to progress k by an injected persistent statement failure, then one edit (change/insert/delete/swap/truncate/append at a drawn index, truncation may go below k), re-hash, apply, apply again; distinct = distinct trace hash",
 		RequiredProbes: []string{"second-failure-in-the-same-file", "partial-with-applied-statements", "edit-touches-applied-part", "fewer-statements-than-applied", "edit-of-unapplied-tail", "tail-edit-changes-length"},
@@ -113,7 +113,7 @@ func init() {
 		Property: "C11",
 		Parts: []simkit.Part{
 			{Name: "execsim-c11", Fn: execsim.C11, Runs: map[string]int{"quick": 40000, "thorough": 3000000}},
-			{Name: "clisim-c11", Fn: clisim.C11CLI, ProcessLevel: true, NeedsCLI: true, Runs: map[string]int{"quick": 500, "thorough": 15000}},
+			{Name: "clisim-c11", Fn: clisim.C11CLI, ProcessLevel: true, NeedsCLI: true, Runs: map[string]int{"quick": 1500, "thorough": 15000}},
 		},
 		Rule:           "one run = 2-8 operator actions (add newer file, add file with an older version, add checkpoint, make the database dirty/clean, fix, apply n with drawn exec-order / baseline / allow-dirty and optionally an injected failing statement that leaves a partial revision); after every apply the executed statements and the error class are compared with the documented decision of the reference model (model.Pending); distinct = distinct trace hash among runs that executed a statement",
 		RequiredProbes: []string{"out-of-order-file-added", "checkpoint-added", "last-partial-history", "first-run-with-checkpoint", "decision:run", "decision:no-pending", "decision:not-clean", "decision:baseline-not-found", "decision:non-linear"},
@@ -127,7 +127,7 @@ func init() {
 		Property: "C06",
 		Parts: []simkit.Part{
 			{Name: "execsim-c06", Fn: execsim.C06, Runs: map[string]int{"quick": 20000, "thorough": 1500000}},
-			{Name: "clisim-c06", Fn: clisim.C06CLI, ProcessLevel: true, NeedsCLI: true, Runs: map[string]int{"quick": 300, "thorough": 8000}},
+			{Name: "clisim-c06", Fn: clisim.C06CLI, ProcessLevel: true, NeedsCLI: true, Runs: map[string]int{"quick": 600, "thorough": 8000}},
 		},
 		Rule:           "one run = 3-12 steps on a real LocalDir: writers (Planner.WritePlan, WriteCheckpoint, WriteSumFile, MemDir.CopyFiles) with an optional disk fault on one of their writes (nothing / prefix / everything written, error returned) interleaved with adversary edits of the storage (byte flip/insert/delete, add first/middle/last, remove, rename, swap contents, gain/lose the sum-ignore line, body edit of a sum-ignored file, non-.sql file, atlas.sum character/line edits, removal, truncation); after every step Validate is compared with an independent reference implementation of the sum format and with the 'valid before + tamper => invalid after' rule; distinct = distinct trace hash among runs with at least one fault or tamper",
 		RequiredProbes: []string{"ref-compared", "tamper-on-valid-directory", "sum-file-edited", "torn-sum-file", "edit-body-of-sum-ignored-file", "sum-ignore-directive-present", "sum-ignored-file-added-removed-renamed", "import-unpadded-versions", "import-flyway-repeatable"},
@@ -147,7 +147,7 @@ func init() {
 	add(&simkit.Check{
 		Property: "C14",
 		Parts: []simkit.Part{
-			{Name: "clisim-c14", Fn: clisim.C14, ProcessLevel: true, NeedsCLI: true, Runs: map[string]int{"quick": 960, "thorough": 28800}},
+			{Name: "clisim-c14", Fn: clisim.C14, ProcessLevel: true, NeedsCLI: true, Runs: map[string]int{"quick": 2880, "thorough": 28800}},
 		},
 		Rule:           "one run = (dev-url command x initial dev state) stratified over the run index (8 commands x 6 states: no file, empty file, user tables with rows, leftovers of a replay killed before restore, view only, virtual tables only) + generated directory / SQL schema with real DDL + drawn fault (none, a failing statement at a drawn position, SIGKILL at a drawn replay point) + the follow-up command after a crash; distinct = distinct trace hash",
 		RequiredProbes: c14probes,
@@ -172,7 +172,7 @@ func init() {
 	})
 	add(&simkit.Check{
 		Property:       "C05",
-		Parts:          []simkit.Part{{Name: "schemasim-c05", Fn: schemasim.Walk("C05"), Runs: map[string]int{"quick": 3000, "thorough": 120000}}},
+		Parts:          []simkit.Part{{Name: "schemasim-c05", Fn: schemasim.Walk("C05"), Runs: map[string]int{"quick": 6000, "thorough": 120000}}},
 		Rule:           walkRule + "; oracle: row count and the multiset of rows projected on the columns that keep name and declared type, per table, across every successful apply; whole-database identity across every failed apply in a transaction",
 		RequiredProbes: []string{"successful-apply", "populated-table-checked/alter", "populated-table-checked/rebuild", "failed-apply-rolled-back", "row-inserted", "child-row-references-parent-row", "generated-column-became-regular"},
 		RequiredFaults: []string{"statement-error", "connection-abandoned"},
@@ -190,7 +190,7 @@ func init() {
 	})
 	add(&simkit.Check{
 		Property:       "C17",
-		Parts:          []simkit.Part{{Name: "schemasim-c17", Fn: schemasim.Walk("C17"), Runs: map[string]int{"quick": 3000, "thorough": 120000}}},
+		Parts:          []simkit.Part{{Name: "schemasim-c17", Fn: schemasim.Walk("C17"), Runs: map[string]int{"quick": 6000, "thorough": 120000}}},
 		Rule:           walkRule + "; oracle on every successfully applied plan: flagged reversible only if every change has reverse statements; for reversible plans the down sections of the golang-migrate, goose, dbmate, flyway formatters and the liquibase rollback lines are exactly the reverse statements in reverse order, and executing them on the real database restores the starting schema and catalog",
 		RequiredProbes: []string{"successful-apply", "reversible-plan", "irreversible-plan", "down-executed"},
 		RequiredFaults: []string{"statement-error"},
@@ -199,7 +199,7 @@ func init() {
 	})
 	add(&simkit.Check{
 		Property:       "C18",
-		Parts:          []simkit.Part{{Name: "clisim-c18", Fn: clisim.C18, ProcessLevel: true, NeedsCLI: true, Runs: map[string]int{"quick": 500, "thorough": 15000}}},
+		Parts:          []simkit.Part{{Name: "clisim-c18", Fn: clisim.C18, ProcessLevel: true, NeedsCLI: true, Runs: map[string]int{"quick": 3000, "thorough": 15000}}},
 		Rule:           "one run = a directory evolved file by file (2-6 files): each file is either derived by `migrate diff` from one schema edit (so SQLite's rebuild procedure appears when it would for a user) or hand-written from 1-3 operations (CREATE TABLE, ADD COLUMN, CREATE INDEX, DROP TABLE, ALTER TABLE DROP COLUMN of a stored or virtual column, rebuild that omits a column, additive rebuild, create-and-drop of a temporary table or column, drop of an existing column / table followed by an add / create of the same name); then `migrate lint --latest N` for a drawn N; the reference model tracks which tables and non-virtual columns existed before each file; distinct = distinct trace hash",
 		RequiredProbes: []string{"file-derived-by-migrate-diff", "diff-generated-rebuild", "temporary-table-created-and-dropped", "hand-written-rebuild-omitting-column", "additive-rebuild", "virtual-column-dropped", "additive-file-in-window", "column-dropped-and-re-added", "table-dropped-and-re-created", "temporary-column-added-and-dropped", "rebuild-without-pragma-frame", "diff-with-two-edits"},
 		RequiredFaults: []string{"destructive/DS102", "destructive/DS103"},
